@@ -31,11 +31,11 @@ func verifInside(in, out hcl.Range) bool {
 	return verifAnd(out.Start.Byte <= in.Start.Byte, in.End.Byte <= out.End.Byte)
 }
 
-func VerifP_C11_Inverse_N() int { return 3 }
-func VerifP_C11_Inverse_Name(i int) string {
+func VerifP_C02C11_Inverse_N() int { return 3 }
+func VerifP_C02C11_Inverse_Name(i int) string {
 	return []string{"local-origin", "path-origin", "block-local-names"}[i]
 }
-func VerifP_C11_Inverse(mode int) {
+func VerifP_C02C11_Inverse(mode int) {
 	p1, p2 := lang.Path{Path: "p1"}, lang.Path{Path: "p2"}
 	typ := []cty.Type{cty.NilType, cty.String, cty.DynamicPseudoType}[verifChoice("ttype", 3)]
 	scope := []lang.ScopeId{"variable", "other"}[verifChoice("tscope", 2)]
@@ -59,6 +59,12 @@ func VerifP_C11_Inverse(mode int) {
 		t0 := reference.Target{Addr: lang.Address{lang.RootStep{Name: "var"}, lang.AttrStep{Name: "foo"}}, ScopeId: scope, Type: typ, RangePtr: &r0, DefRangePtr: &d0}
 		t0.NestedTargets = reference.Targets{{Addr: lang.Address{lang.RootStep{Name: "var"}, lang.AttrStep{Name: "foo"}, lang.AttrStep{Name: "n"}}, ScopeId: scope, Type: cty.String, RangePtr: &rn, DefRangePtr: &dn}}
 		t1 := reference.Target{Addr: lang.Address{lang.RootStep{Name: "var"}, lang.AttrStep{Name: "bar"}}, ScopeId: scope, Type: cty.Number, RangePtr: &r1, DefRangePtr: &d1}
+		if mode == 1 && verifChoice(tag+"selfref", 2) == 1 {
+			// a self-referable declaration: it also has a block-local name, usable inside its extent
+			tfr := r0
+			t0.LocalAddr = lang.Address{lang.RootStep{Name: "self"}}
+			t0.TargetableFromRangePtr = &tfr
+		}
 		if mode == 2 {
 			// block-local names: count.index inside r0 only
 			tfr := r0
